@@ -160,7 +160,7 @@ func (p *Prog) verifyFunc(fn *ssa.Function, ct *Contract) (res *FuncResult) {
 	fr.isInit = isInit
 	if !isInit {
 		for _, gi := range p.globalInvs {
-			if pk := pre.pkg(); pk != nil && pk.Name() == gi.Pkg {
+			if pk := pre.pkg(); gi.inPkg(pk) {
 				func() {
 					defer func() {
 						if r := recover(); r != nil {
@@ -376,7 +376,7 @@ func (p *Prog) verifyFunc(fn *ssa.Function, ct *Contract) (res *FuncResult) {
 		}
 		if isInit {
 			for _, gi := range p.globalInvs {
-				if pk := post.pkg(); pk != nil && pk.Name() == gi.Pkg {
+				if pk := post.pkg(); gi.inPkg(pk) {
 					name := fmt.Sprintf("%s/global-invariant[%s]%s", key, gi.Clause.Label, site)
 					vc.oblige(ex.st, name, "ensures", post.evalBool(gi.Clause.Expr), gi.Clause.Text)
 					// nothing but the initializer stores to the variables mentioned
@@ -471,7 +471,7 @@ func (p *Prog) verifyInitGlobals(fn *ssa.Function, fr *Frame, st *State) {
 	vc := fr.vc
 	key := funcKey(fn)
 	for _, gi := range p.globalInvs {
-		if fn.Pkg == nil || fn.Pkg.Pkg.Name() != gi.Pkg {
+		if fn.Pkg == nil || !gi.inPkg(fn.Pkg.Pkg) {
 			continue
 		}
 		names := map[string]bool{}
@@ -588,7 +588,7 @@ func (p *Prog) protectedGlobals() []int {
 		names := map[string]bool{}
 		globalsIn(gi.Clause.Expr, names)
 		for _, sp := range p.ssa.AllPackages() {
-			if sp.Pkg.Name() != gi.Pkg || !strings.HasPrefix(sp.Pkg.Path(), repoMod) {
+			if !gi.inPkg(sp.Pkg) || !strings.HasPrefix(sp.Pkg.Path(), repoMod) {
 				continue
 			}
 			for n := range names {
